@@ -4,10 +4,58 @@ from oracles import common_o as O
 from props._util import rng_for, run_cases
 
 LEVEL = "other"
-DEDUCTIVE = []
-TRUSTED = ["CPython 3.12"]
-ASSUMPTIONS = []
-EXPLANATION = "see DESIGN.md 4/C07"
+DEDUCTIVE = [{"module": "rnapolis.common", "sidecar": "contracts.common_elems_c", "targets": ["BpSeq.__stems_entries"]},
+             {"module": "rnapolis.common", "sidecar": "contracts.common_elems_c",
+              "opts": {"z3_probe_ms": 800},  # stage order: short z3 attempt, cvc5, then the usual z3 stages
+              "targets": ["Strand.from_bpseq_entries", "lemma:consecutive", "lemma:onto_length",
+                          "Stem.from_bpseq_entries", "BpSeq.elements@prefix"]}]
+TRUSTED = ["z3 5.1.0 / cvc5 1.0.3", "pyvc encoding of Python semantics (DESIGN 2.3)", "CPython 3.12",
+           "external sorted() (contracts.common_elems_c._sorted_int_set): for a set of integers, the strictly increasing list of "
+           "exactly its members",
+           "external collections.defaultdict (only named; the statement that uses it lies behind the cut point)"]
+ASSUMPTIONS = [
+    "cached_property model: every access to BpSeq.__stems_entries / BpSeq.dot_bracket returns the value of a ghost slot "
+    "(self.stems_ / self.dot_bracket_) that satisfies the property's contract in the current state; for __stems_entries this is "
+    "the contract proved under C01 (re-proved here as a target), for dot_bracket see next item",
+    "assumed callee contract BpSeq.dot_bracket@text (MILP encoder, subject of C02/C13): returns without raising a DotBracket "
+    "whose structure text has len(entries) characters - nothing else about the text is used, the strands' structure texts are "
+    "proved to be its slices whatever it contains",
+    "dataclass __post_init__ of Stem / SingleStrand / Hairpin / Loop (self.description = str(self)) is not modelled: it writes "
+    "only the undeclared field `description` of the object under construction",
+    "PREFIX contract: BpSeq.elements is verified from its entry up to, not including, the statement `graph = defaultdict(set)`; "
+    "its clauses speak of the local variables at that point. That the rest of the function returns `stems` and `hairpins` "
+    "unchanged and only appends to `single_strands` is a syntactic observation (no statement behind the cut assigns, mutates or "
+    "writes them), not an engine proof",
+]
+EXPLANATION = (
+    "Under contract (sidecar contracts/common_elems_c.py): BpSeq.__stems_entries (contract of common_c, C01: the stems are "
+    "exactly the maximal runs of directly stacked 5'->3' pairs, in 5' order, every pair in exactly the stem the ghost map GS "
+    "names - 'the stems partition the base pairs into maximal runs of directly stacked pairs'); Strand.from_bpseq_entries "
+    "(first/last = ends of the run of positions, sequence = the entries' nucleotides, structure = dotbracket[first-1:last]; "
+    "reverse=True: ends swapped, nucleotides reversed - never used by the library); Stem.from_bpseq_entries for a run T of "
+    "stacked pairs of a valid structure ('mirrored 5' and 3' strands': the filtered list of partners is proved to be the "
+    "contiguous run all_entries[pair(last5)-1 : pair(first5)], hence strand3p.first == pair(last5), strand3p.last == "
+    "pair(first5), both strands carry the slices of sequence and text; the step 'a strictly increasing map onto an integer "
+    "interval is j -> a + j and has the interval's length' is the pair of SMT lemmas consecutive (induction on j) / "
+    "onto_length); BpSeq.elements@prefix (PREFIX contract, see ASSUMPTIONS) whose clauses at the cut point are: S are the "
+    "maximal runs; one Stem object per run, in 5' order, with the run's mirrored strand ends and the slices; every stop is a "
+    "paired position and the first/last stop is the first/last paired position, so the 5' (3') single strand is reported "
+    "exactly when the structure starts (ends) with unpaired nucleotides and covers them plus the first (last) paired one, "
+    "with its slices; every reported hairpin runs from a nucleotide to its partner with only unpaired nucleotides between "
+    "('hairpins are pairs enclosing only unpaired nucleotides', the direction reported => definition) and carries its slices; "
+    "every loop-strand candidate runs between two consecutive paired nucleotides that are not partners, interior unpaired, "
+    "with its slices ('every reported strand's sequence and structure text equal the corresponding slices' for stems, "
+    "hairpins, tails and the candidates every loop strand / free single strand is taken from); nothing allocated before the "
+    "call is written (frame). "
+    "BOUNDED ONLY (oracles, all pairings N <= 10 + random knotted structures): the loop-linking graph over loop candidates "
+    "(defaultdict(set), lines ~599-608), the closure walk (`while True` / for-else, `used` set of Strand values, lines "
+    "~610-633: sets keyed by records with text fields are outside the engine's value model) and the final single-strand loop; "
+    "hence 'every loop is a closed cycle of >= 2 strands whose consecutive ends are base-paired', 'every pair enclosing only "
+    "unpaired nucleotides IS reported as a hairpin' (converse direction) and 'every unpaired nucleotide lies in the interior "
+    "of exactly one single strand, hairpin or loop strand'. Observed while reading: `if i in used` compares an int with a set "
+    "of Strand values (always False), and a structure without any pair returns four empty lists (no single strand at all) - "
+    "both are left to the bounded oracle / triage."
+)
 
 
 def bounded(tier, seed):
